@@ -111,6 +111,12 @@ func Props(c *Ctx) map[string]*Prop {
 	add(&Prop{ID: "C05",
 		Explanation: "Decides only side conditions of the print/parse round trip: every semantic AST field and every Config field is read by the printer (TB6); pending here-document frames are balanced on every path under every combination of the style bits that guard them (PU8); the operator sets of scanner and expander/printer agree (TB10); nil-encoded fields are tested against nil (TB13); token widths in End() match the spellings (TB5 is under C04). Whether printed text re-parses to the same tree is not decidable structurally and is not claimed.",
 		Rules: []Rule{ruleTB6(), rulePU8(), ruleTB10(), ruleTB13(), rulePF3("printer")}})
+	add(&Prop{ID: "C13",
+		Explanation: "Decides the operator × state × nounset × special table of parameter expansion completely: for each of the 624 consistent valuations the outcome of every path of expandParam (value, word expanded, assignment, pattern removal, length, error kind) is extracted from the control-flow graph and compared with POSIX's table, including 'the word is expanded only when it is used' and 'assignment only under = / :=' (DT1); ${#p} counts runes (BR2); operator and special-parameter sets agree across packages (TB8, TB10, TB13); Set discipline (PU6/PU7); no panic (PF1). Field generation for $@ / $*, quoting of results and IFS joins are value-level and not decided.",
+		Assumptions: []string{"POSIX XCU 2.6.2 table frozen in the checker as oracle", "go.sh's documented Arith mode passes plain names through"},
+		Rules: []Rule{ruleDT1(), ruleBR2(), ruleTB8(), ruleTB10(), ruleTB13(), rulePU6(), ruleFLD1(),
+			pf1Rule("no index/slice/assertion in the expansion functions can panic", 40,
+				func(c *Ctx) (map[*core.Func]bool, map[*core.Func]bool) { return c.scopeOf("interp.(*ExecEnv).Expand"), nil })}})
 	add(&Prop{ID: "DEVT", Explanation: "dev", Rules: []Rule{ruleTB5(), ruleTB6(), ruleTB7(), ruleTB8(), ruleTB10(), ruleTB13(), ruleTB9a("parser", "parser.(*lexer).scanOp", 15)}})
 	add(&Prop{ID: "DEVG", Explanation: "dev", Rules: []Rule{ruleGR1("parser", "interp"), ruleGR2("parser", "interp"), ruleGR3(), ruleGR4(), ruleGR5(), ruleGR6()}})
 	return m
